@@ -91,6 +91,11 @@ structure Stacker where
   srows : List Cells
   /-- plain Python attributes set on the object by `stack.<name> = v` for a name that is not a property -/
   pyattrs : List (String × Value) := []
+  /-- columns pandas created *while a `loc` assignment failed* (list of columns, mask of the wrong length): they exist
+  in `_stacked.columns` with the placeholder dtype `V0` — any arithmetic on them raises TypeError, the first successful
+  assignment turns them into an ordinary column (NaN where nothing was assigned).  Their cells are not materialised
+  in `srows` (a missing key reads as NaN, `padCells` creates it). -/
+  voidcols : List String := []
   deriving DecidableEq, Repr
 
 def slotsOf (incl : TList → Bool) (ls : List TList) : List (Option Nat) :=
@@ -113,7 +118,7 @@ def mkStacker (incl : TList → Bool) (ls : List TList) : Except Err Stacker :=
   else
     let U := unionCols mc
     if U.contains "index" then .error .value             -- reset_index(): cannot insert index, already exists
-    else .ok ⟨slots, "index" :: U, stackedRows U ls slots, []⟩
+    else .ok ⟨slots, "index" :: U, stackedRows U ls slots, [], []⟩
 
 /-! ### `Stacker._update` -/
 
@@ -155,7 +160,8 @@ structure Action where
 
 def assign (s : Stacker) (a : Action) : Stacker :=
   { s with scols := s.scols ++ a.cols.filter (fun c => !s.scols.contains c),
-           srows := updRows a.sel a.cols a.g 0 s.srows }
+           srows := updRows a.sel a.cols a.g 0 s.srows,
+           voidcols := s.voidcols.filter (fun c => !a.cols.contains c) }
 
 /-! ### the operations -/
 
@@ -191,7 +197,8 @@ inductive Op
   | stack (incl : Option (List String))                                   -- m.stack(include_types)
   | set (sid : Nat) (col : String) (v : Value)                            -- stack[col] = v
   | map (sid : Nat) (col : String) (f : Fn)                               -- stack[col] op= q
-  | locSet (sid : Nat) (mask : List Bool) (cols : List String) (v : Cell) -- stack.loc[mask, cols] = v
+  | locSet (sid : Nat) (mask : List Bool) (single : Bool) (cols : List String) (v : Cell)
+      -- stack.loc[mask, cols] = v   (`single`: the column is given as one name, not as a list)
   | locMap (sid : Nat) (mask : List Bool) (cols : List String) (f : Fn)   -- stack.loc[mask, cols] op= q
   | attrSet (sid : Nat) (name : String) (v : Value)                       -- stack.<name> = v
   | attrMap (sid : Nat) (name : String) (f : Fn)                          -- stack.<name> op= q
@@ -199,7 +206,7 @@ inductive Op
 
 def Op.sid? : Op → Option Nat
   | .stack _ => none
-  | .set s _ _ | .map s _ _ | .locSet s _ _ _ | .locMap s _ _ _ | .attrSet s _ _ | .attrMap s _ _ => some s
+  | .set s _ _ | .map s _ _ | .locSet s _ _ _ _ | .locMap s _ _ _ | .attrSet s _ _ | .attrMap s _ _ => some s
 
 def allSel : Nat → Bool := fun _ => true
 
@@ -232,14 +239,18 @@ def resolve (props : List String) (s : Stacker) : Op → Except Err Outcome
       else .ok (.act ⟨allSel, [col], fun i _ _ => cs.getD i .nan⟩)
   | .map _ col f =>
       if !s.scols.contains col then .error .key
+      else if s.voidcols.contains col then .error .type
       else if !evalOk f allSel [col] 0 s.srows then .error .type
       else .ok (.act ⟨allSel, [col], fun _ _ old => f.evalD old⟩)
-  | .locSet _ mask cols v =>
-      if mask.length ≠ s.srows.length then .error .index
+  | .locSet _ mask single cols v =>
+      if mask.length ≠ s.srows.length then .error .index            -- (side effect on the copy: `errEffect`)
+      else if single && s.srows.isEmpty && !cols.all (fun c => s.scols.contains c) then
+        .error .value                 -- "cannot set a frame with no defined index and a scalar"
       else .ok (.act ⟨maskSel mask, cols, fun _ _ _ => v⟩)
   | .locMap _ mask cols f =>
       if !cols.all (fun c => s.scols.contains c) then .error .key          -- the getter looks the columns up first
       else if mask.length ≠ s.srows.length then .error .index
+      else if cols.any (fun c => s.voidcols.contains c) then .error .type
       else if !evalOk f (maskSel mask) cols 0 s.srows then .error .type
       else .ok (.act ⟨maskSel mask, cols, fun _ _ old => f.evalD old⟩)
   | .attrSet _ name v =>
@@ -254,6 +265,7 @@ def resolve (props : List String) (s : Stacker) : Op → Except Err Outcome
   | .attrMap _ name f =>
       if props.contains name then
         if !s.scols.contains name then .error .key
+        else if s.voidcols.contains name then .error .type
         else if !evalOk f allSel [name] 0 s.srows then .error .type
         else .ok (.act ⟨allSel, [name], fun _ _ old => f.evalD old⟩)
       else
@@ -288,6 +300,16 @@ def growStacker (s : Stacker) (col : String) (cs : List Cell) : Stacker :=
   let scols := s.scols ++ [col].filter (fun c => !s.scols.contains c)
   { s with scols := scols, srows := cs.map (fun c => scols.map (fun k => (k, if k = col then c else Cell.nan))) }
 
+/-- what a *failing* call leaves behind on the stacker's private copy (never on the lists): pandas creates the
+missing columns of `loc[mask, [cols…]] = v` before it notices that the mask has the wrong length -/
+def errEffect (s : Stacker) : Op → Stacker
+  | .locSet _ mask single cols _ =>
+      if mask.length ≠ s.srows.length && !single then
+        { s with scols := s.scols ++ cols.filter (fun c => !s.scols.contains c),
+                 voidcols := s.voidcols ++ cols.filter (fun c => !s.scols.contains c) }
+      else s
+  | _ => s
+
 def applyAction (w : MapW) (sid : Nat) (s : Stacker) (a : Action) : MapW :=
   let s' := assign s a
   { w with lists := writeBack s'.srows 0 w.lists s'.slots, stackers := w.stackers.set sid s' }
@@ -307,7 +329,7 @@ def step (w : MapW) (op : Op) : MapW × Option Err :=
         | none => (w, some .nostacker)
         | some s =>
           match resolve (propsOf w.mcls) s op with
-          | .error e => (w, some e)
+          | .error e => ({ w with stackers := w.stackers.set sid (errEffect s op) }, some e)
           | .ok (.pyattr name v) =>
               ({ w with stackers := w.stackers.set sid { s with pyattrs := (name, v) :: s.pyattrs } }, none)
           | .ok (.act a) => (applyAction w sid s a, none)
@@ -385,7 +407,7 @@ def getErr (key : String) (f : Option Fn) : List MapW → List Nat → Option Er
           | some e => some e
           | none =>
             match f with
-            | some f => if evalOk f allSel [key] 0 s.srows then none else some .type
+            | some f => if !s.voidcols.contains key && evalOk f allSel [key] 0 s.srows then none else some .type
             | none => none
   | _, _ => none
 
@@ -430,5 +452,13 @@ def sstep (w : SetW) (op : SOp) : SetW × Option Err :=
 def srunTrace (w : SetW) : List SOp → List (SetW × Option Err)
   | [] => []
   | op :: ops => let r := sstep w op; r :: srunTrace r.1 ops
+
+def srun (w : SetW) : List SOp → SetW
+  | [] => w
+  | op :: ops => srun (sstep w op).1 ops
+
+def serrs (w : SetW) : List SOp → List Bool
+  | [] => []
+  | op :: ops => (sstep w op).2.isSome :: serrs (sstep w op).1 ops
 
 end Reamber.Stack
